@@ -15,14 +15,21 @@ def record(rep, tag, rule, site, r, what):
         return False
     if r.failures:
         f = r.failures[0]
-        if f['witness'] is not None or 'differs' not in f['detail']:
+        if f['witness'] is not None or ('differs' not in f['detail'] and f.get('kind') != 'range'):
             wtxt = ''
             if f['witness']:
                 w = f['witness']
                 vals = {}
+                single = {}
                 for k, v in w.items():
-                    vals.setdefault(k[:-1], {})[k[-1]] = v
-                wtxt = ' witness: ' + ', '.join('%s=0x%016x' % (n, (d.get('h', 0) << 32) + d.get('l', 0)) for n, d in sorted(vals.items()))
+                    if k[-1:] in 'hl' and (k[:-1] + 'h') in w and (k[:-1] + 'l') in w:
+                        vals.setdefault(k[:-1], {})[k[-1]] = v
+                    else:
+                        single[k] = v
+                # symbols introduced by a summary (v<n>: the value a proved callee returns) are not inputs
+                import re as _re
+                wtxt = ' witness: ' + ', '.join(['%s=0x%016x' % (n, (d.get('h', 0) << 32) + d.get('l', 0)) for n, d in sorted(vals.items())
+                                                 if not _re.match(r'^v\d+$', n)] + ['%s=0x%x' % kv for kv in sorted(single.items())])
             rep.refute(tag, rule, site, '%s: %s%s (%d of %d cells fail)' % (what, f['detail'][:300], wtxt, len(r.failures), r.cells),
                        witness=f['witness'])
         else:
